@@ -831,10 +831,31 @@ def m_localname(f: Failure) -> bool:
 MATCHERS = {"C11-ws-in-header-value-not-escaped": m_ws, "C11-attribute-same-local-name-evicted": m_localname}
 
 
+def directed_case(row, intended, attribute):
+    return {
+        "channel": "dict", "hdr": [c for c, _ in row], "row": [list(x) for x in row],
+        "intended": [list(x) for x in intended], "attribute": [list(x) for x in attribute], "args": {},
+        "fallback": None, "filename": None, "survey": [{"type": "text", "name": "q1", "label": "Q1"}],
+        "survey_settings": [], "overlay": [], "dup": False, "has_sheet": True, "typed": False, "grid": None,
+    }
+
+
+# one directed input per open finding of this property: every run, whatever the seed, re-observes them
+DIRECTED = [
+    # C11-ws-in-header-value-not-escaped: LF in an attribute value, CR in the title
+    directed_case([["version", "a\nb"], ["form_title", "x\ry"]], [["version", "a\nb"], ["title", "x\ry"]], []),
+    # C11-attribute-same-local-name-evicted: two custom attributes that differ only by a prefix
+    directed_case([["attribute::jr:x", "1"], ["attribute::x", "2"]], [], [["jr:x", "1"], ["x", "2"]]),
+]
+
+
 def explore(ctx, factor, bs):
     rng = ctx.rng
     tmpdir = tempfile.mkdtemp(prefix="c11-")
     try:
+        if factor == 1:
+            for c in DIRECTED:
+                one_case(ctx, copy.deepcopy(c), tmpdir)
         n = ctx.pick(2500, 30000) * factor
         for _ in range(n):
             one_case(ctx, gen_case(rng, tier_big=not ctx.quick()), tmpdir)
